@@ -107,9 +107,11 @@ fn auth_plan(thorough: bool) -> Plan {
             a.push(exec(&admin, upd(Some(n), None, None), vec![]));
         }
         if cfg.protocol_chain_config.ibc_channel_id == SIM_CHANNEL {
-            let mut p = im.protocol_chain_config.clone();
-            p.ibc_channel_id = "channel-5".into();
-            a.push(exec(&admin, upd(None, Some(p), None), vec![]));
+            for ch in ["channel-5", "channel-007"] {
+                let mut p = im.protocol_chain_config.clone();
+                p.ibc_channel_id = ch.into();
+                a.push(exec(&admin, upd(None, Some(p), None), vec![]));
+            }
         }
         if s.m.halted {
             a.push(resume(&admin, st.total_native_token.u128(), st.total_liquid_stake_token.u128(), st.total_reward_amount.u128()));
@@ -242,6 +244,64 @@ fn fresh_instances(r: &mut Runner) {
         }
     }
     r.grid("fresh-instances-refuse-six-operations", evals, 6, 0, evals, samples, viols);
+}
+
+/// only the admin can resume: no migration path may clear (or set) the halted flag
+fn halted_survives_migration(r: &mut Runner) {
+    use staking::migrations::states::{v0_4_18, v0_4_20};
+    use staking::msg::MigrateMsg;
+    let k = K::k0();
+    let base = seed_received(&k).w.kv;
+    let mut n = 0u64;
+    let mut viols = vec![];
+    for stopped in [true, false] {
+        // 0.4.18 -> 0.4.20
+        let mut old = crate::migrate_grid::old_config_0_4_18(&k, Some(true), true);
+        old.stopped = stopped;
+        let mut kv = base.clone();
+        v0_4_18::CONFIG.save(&mut kv, &old).unwrap();
+        cw2::set_contract_version(&mut kv, "staking", "0.4.18").unwrap();
+        n += 1;
+        if crate::migrate_grid::migrate_raw(&mut kv, MigrateMsg::V0_4_18ToV0_4_20 { send_fees_to_treasury: true }).is_ok() {
+            let got = v0_4_20::CONFIG.load(&kv).map(|c| c.stopped).ok();
+            if got != Some(stopped) {
+                viols.push((viol("C10", "migration.changes_halted_flag.v0_4_20", format!("0.4.18 -> 0.4.20 turned stopped={stopped} into {:?}", got)), json!({"path": "0.4.18->0.4.20", "stopped": stopped})));
+            }
+            // 0.4.20 -> 1.0.0 on the result
+            cw2::set_contract_version(&mut kv, "staking", "0.4.20").unwrap();
+            n += 1;
+            let msg = MigrateMsg::V0_4_20ToV1_0_0 {
+                native_account_address_prefix: k.native_prefix.clone(),
+                native_validator_address_prefix: format!("{}valoper", k.native_prefix),
+                native_token_denom: "utia".into(),
+                protocol_account_address_prefix: "osmo".into(),
+            };
+            if crate::migrate_grid::migrate_raw(&mut kv, msg).is_ok() {
+                let got = staking::state::CONFIG.load(&kv).map(|c| c.stopped).ok();
+                if got != Some(stopped) {
+                    viols.push((viol("C10", "migration.changes_halted_flag.v1_0_0", format!("0.4.20 -> 1.0.0 turned stopped={stopped} into {:?}", got)), json!({"path": "0.4.20->1.0.0", "stopped": stopped})));
+                }
+            }
+        }
+        // 1.0.0 -> 1.1.0 on a current-layout store
+        let mut s = seed_received(&k);
+        if stopped {
+            s.apply(&halt(&adm()));
+        }
+        let mut kv = s.w.kv.clone();
+        cw2::set_contract_version(&mut kv, "staking", "1.0.0").unwrap();
+        for key in kv.m.keys().filter(|k| k.windows(8).any(|w| w == b"inflight")).cloned().collect::<Vec<_>>() {
+            kv.m.remove(&key);
+        }
+        n += 1;
+        if crate::migrate_grid::migrate_raw(&mut kv, MigrateMsg::V1_0_0ToV1_1_0 {}).is_ok() {
+            let got = staking::state::CONFIG.load(&kv).map(|c| c.stopped).ok();
+            if got != Some(stopped) {
+                viols.push((viol("C10", "migration.changes_halted_flag.v1_1_0", format!("1.0.0 -> 1.1.0 turned stopped={stopped} into {:?}", got)), json!({"path": "1.0.0->1.1.0", "stopped": stopped})));
+            }
+        }
+    }
+    r.grid("c10-halted-flag-survives-migrations", n, 2, n, 0, vec![json!({"path": "0.4.20->1.0.0", "stopped": true})], viols);
 }
 
 // ------------------------------------------------------------------------------------------ C16
@@ -407,6 +467,7 @@ pub fn run(prop: &str, thorough: bool) -> i32 {
     let mut r = Runner::new(prop, if thorough { "thorough" } else { "quick" });
     if prop == "C10" {
         fresh_instances(&mut r);
+        halted_survives_migration(&mut r);
     }
     if prop == "C16" {
         crate::treasury_grid::panic_battery(&mut r);
